@@ -41,6 +41,13 @@ Proof. split; reflexivity. Qed.
 Example C15_ex_variant4 : variant_from_bytes (bs "1aB9"%string) = Ok (bs "1ab9"%string) /\ variant_from_bytes (bs "abcd"%string) = Err InvalidSubtag.
 Proof. split; reflexivity. Qed.
 
+(* the executable specification that judges the implementation in the correspondence run is a corollary of the
+   theorems above: for every operation of the subtag suite and every argument the MODEL's answer passes it *)
+From UL Require Oracle OracleSound.
+Theorem C15_oracle_spec_sound : forall op args r,
+  Oracle.oracle_model_subtags op args = Some r -> OracleSound.passes (Oracle.oracle_spec_subtags op args r).
+Proof. exact OracleSound.subtags_sound. Qed.
+
 Print Assumptions C15_language_exact.
 Print Assumptions C15_script_exact.
 Print Assumptions C15_region_exact.
@@ -51,3 +58,4 @@ Print Assumptions C15_region_uppercase.
 Print Assumptions C15_variant_lowercase.
 Print Assumptions C15_language_text.
 Print Assumptions C15_und_is_empty.
+Print Assumptions C15_oracle_spec_sound.
